@@ -201,6 +201,8 @@ fn codec_answer(line: &str) -> String {
             let (Some(n), Some(len), Some(seed)) = (num(n), num(len), num(seed)) else { return "bad-op".into() };
             sim_rx_answer(n as usize, lcg_bytes(seed, len as usize))
         }
+        // can the in-process peer be started here at all (loopback interface)? not an op line
+        ["simprobe"] => with_sim(|_| "ok 1 0 0 0".into()),
         ["simtx", n, seed] => {
             let (Some(n), Some(seed)) = (num(n), num(seed)) else { return "bad-op".into() };
             sim_tx_answer(&mk_frames(n as usize, seed, &l))
@@ -1020,16 +1022,23 @@ pub fn run(args: &Args) {
     }
     // ---- the simulator link itself (`autd3-link-simulator`): replies of every length in a window around the true
     //      size, odd lengths, other device counts; frames through `send`
-    for n in if thorough { 0..=17usize } else { 0..=8usize } {
+    // without a loopback interface the peer cannot be started: the cases are skipped (and counted), never guessed
+    let sim_ok = ctx.ask("simprobe").0 == "ok 1 0 0 0";
+    ctx.out.count(if sim_ok { "simulator-link: in-process gRPC peer started" } else { "simulator-link: NO loopback peer here, cases skipped" });
+    for n in if !sim_ok { 1..=0usize } else if thorough { 0..=17usize } else { 0..=8usize } {
         for len in 0..=(2 * n + 5) {
             sim_rx_case(&mut ctx, n, len, rng.below(1 << 31));
         }
     }
     for &(n, len) in &[(16usize, 33usize), (16, 31), (64, 129), (64, 128), (3, 1025), (1, 0), (249, 499)] {
-        sim_rx_case(&mut ctx, n, len, rng.below(1 << 31));
+        if sim_ok {
+            sim_rx_case(&mut ctx, n, len, rng.below(1 << 31));
+        }
     }
     for n in [0usize, 1, 2, 3, 16] {
-        sim_tx_case(&mut ctx, n, rng.below(1 << 31));
+        if sim_ok {
+            sim_tx_case(&mut ctx, n, rng.below(1 << 31));
+        }
     }
     ctx.restart();
     let spawns = ctx.spawns;
